@@ -1727,6 +1727,9 @@ class _Date(Vector):
 		super().__init__(initial, dtype=dtype, name=name, as_row=as_row)
 
 	def _elementwise_compare(self, other, op):
+		if self._dtype is not None and self._dtype.kind is not date:
+			# promoted in place (a datetime was assigned): the elements are no plain dates any more
+			return super()._elementwise_compare(other, op)
 		other = self._check_duplicate(other)
 		if isinstance(other, Vector):
 			# Raise mismatched lengths
